@@ -118,6 +118,21 @@ inline bool ple_recursive_shape(const GenCtx &ctx, int &m, int &n) {
   return true;
 }
 
+// extreme aspect ratios (a handful of rows or columns against tens of thousands): cache-derived rules for automatic
+// parameters and strip heights only fire for such shapes.  Returns true (rarely) and overrides (a, b).
+inline bool extreme_shape(const GenCtx &ctx, int &a, int &b, int prob_den = 40) {
+  if (ctx.scale < 400 || !coin(1, prob_den)) return false;
+  int few = rng(1, 8), huge = rng(20000, 45000);
+  if (coin(1, 2)) {
+    a = few;
+    b = huge;
+  } else {
+    a = huge;
+    b = few;
+  }
+  return true;
+}
+
 inline int cutoff() {
   int cls = rng(0, 9);
   if (cls < 2) return 0;
